@@ -61,7 +61,10 @@ class IndexEnum:
             out = []
             for x in e.elts:
                 if isinstance(x, ast.Starred):
-                    out.extend(self.ev(x.value, env))
+                    try:
+                        out.extend(self.ev_iter(x.value, env))
+                    except NotEvaluable:
+                        out.extend(self.ev(x.value, env))
                 else:
                     out.append(self.ev(x, env))
             return tuple(out)
